@@ -682,7 +682,8 @@ def run(ctx):
         "router.is_supported_file/get_extractor and the member extractors, str.lower",
         "7z header byte parsing is modelled (coq/C10/Parse.v, fuel-explicit) and tied by a differential run on written, "
         "mutated and encoded headers (parsed reader state and error class compared); termination is proved; the "
-        "parse-after-serialise round trip is NOT proved, so C10_7z_members_exact still starts from the header structure "
+        "parse-after-serialise round trip is proved for the number codec, names, bit vectors and the whole MainStreamsInfo "
+        "section but NOT yet for FilesInfo and the header composition, so C10_7z_members_exact still starts from the header structure "
         "the harness's writer serialised (writer validated against libarchive 3.8); struct.unpack and zlib.crc32 are oracles",
         "the temporary directory of the 7z path is modelled as a name->bytes map (path confinement is C09)",
     ]
@@ -691,8 +692,10 @@ def run(ctx):
     gen_tables(ctx)
 
     # ---- proofs
-    ctx.prove("C10/Props.v", ["C10/Proofs.vo", "C10/Term.vo"], expected=[
+    ctx.prove("C10/Props.v", ["C10/Proofs.vo", "C10/Term.vo", "C10/RoundTrip.vo"], expected=[
         "C10_7z_parse_terminates", "C10_7z_end_header_terminates",
+        "C10_7z_number_roundtrip", "C10_7z_name_roundtrip", "C10_7z_bitvector_roundtrip",
+        "C10_7z_streams_info_roundtrip", "C10_7z_ser_streams_shape", "C10_7z_wf_header_satisfiable",
         "C10_7z_members_exact", "C10_7z_hypothesis_satisfiable", "C10_7z_members_exact_no_substreams",
         "C10_7z_multi_folder_refuted", "C10_7z_no_substreams_refuted", "C10_7z_empty_file_refuted",
         "C10_7z_corrupt_member_local_refuted", "C10_zip_members_exact", "C10_tar_members_exact",
